@@ -19,6 +19,14 @@ structure St where
   pevs : Array PEv := #[]
   users : List Int := []
   bad : Nat := 0
+  -- history mode (`endcall`): what survives a call
+  inst : Inst := {}
+  extraUsers : List Int := []
+  -- schedule model (`sk …` lines)
+  so : SoSt := {}
+  skHoisted : Bool := false
+  skFileSw : List (Int × Bool) := []
+  skAcc : List Sk := []
 
 def look (m : List (Int × Bool)) (n : Int) : Bool := (m.lookup n).getD false
 
@@ -78,6 +86,15 @@ def feed (s : St) (line : String) : St :=
     | some f, some n, some name, some v, some r =>
       addUser { s with pevs := s.pevs.push (.val n ((f / 4) % 2 == 1) name v r) } n
     | _, _, _, _, _ => { s with bad := s.bad + 1 }
+  | "cfg" :: "selusers" :: ws => { s with extraUsers := ws.filterMap String.toInt? }
+  | ["sk", "reset"] => { s with so := {}, skAcc := [] }
+  | "sk" :: "cfg" :: h :: ws => { s with skHoisted := h == "1", skFileSw := parseMap ws, skAcc := [] }
+  | "sk" :: "sim" :: first :: prPunch :: tidy :: bs =>
+    let blocks : List (Int × Bool) := bs.filterMap fun w => match w.splitOn ":" with
+      | [a, b] => a.toInt?.map fun n => (n, b == "1")
+      | _ => none
+    let p := simPrologue s.skHoisted (look s.skFileSw) (first == "1") (prPunch == "1") (tidy == "1") blocks s.so
+    { s with so := p.1, skAcc := s.skAcc ++ p.2 }
   | [] => s
   | _ => { s with bad := s.bad + 1 }
 
@@ -110,14 +127,66 @@ def report (s : St) : List String :=
       s!"P tab {n} {(Driver.SelOut.dump (r.tab n)).drop 2}" ]) ++
   [s!"P bad {s.bad}"]
 
+def showSk : Sk → String
+  | .opened n => s!"o{n}"
+  | .head n => s!"h{n}"
+
+/-- history mode: the call is run on the persistent instance state -/
+def reportCall (s : St) : St × List String :=
+  let cfg : PCfg := ⟨if s.perUser then specStrOn (look s.strSw) else codeStrOn (look s.strSw) s.cur, look s.fileSw⟩
+  let c : CallCfg := ⟨s.outCfg, s.logCfg, s.errCfg, cfg⟩
+  let e : CallEvs := ⟨s.outs.toList, s.logs.toList, s.errs.toList, s.pevs.toList⟩
+  let i := s.inst.call c e
+  let users := s.extraUsers.foldl (fun us n => if us.contains n then us else us ++ [n]) s.users
+  let v := i.views
+  let out :=
+    [ s!"P outstr {hexChars v.outStr}", showLines "outlines" v.outLines, s!"P outfile {hexChars i.disk.out}",
+      s!"P logstr {hexChars v.logStr}", showLines "loglines" v.logLines, s!"P logfile {hexChars i.disk.log}",
+      s!"P errstr {hexChars v.errStr}", showLines "errlines" v.errLines, s!"P errfile {hexChars i.disk.err}",
+      s!"P errcount {errCount e.errs}",
+      s!"P warnstr {hexChars v.warnStr}", showLines "warnlines" v.warnLines ] ++
+    users.flatMap (fun n =>
+      [ s!"P selstr {n} {hexChars (v.selStr n)}", showLines s!"sellines {n}" (v.selLines n),
+        s!"P selfile {n} {hexChars (i.disk.sel n)}",
+        s!"P tab {n} {(Driver.SelOut.dump (v.tab n)).drop 2}" ]) ++
+    [s!"P bad {s.bad}"]
+  ({ s with inst := i, outs := #[], logs := #[], errs := #[], pevs := #[], users := [], bad := 0 }, out)
+
+def fmtQuery (ws : List String) : String :=
+  match ws with
+  | [hp, user, kind, name, len, tab, fmt] =>
+    match unhexStr name, unhexStr fmt, len.toNat? with
+    | some name, some fmt, some len =>
+      let hp := hp == "1"
+      let k : Option ColKind :=
+        if user == "1" then (if kind == "ps" then some (.userStr len (tab == "1")) else if kind == "pd" then some .e4 else none)
+        else classify name (kind == "pi") (kind == "ps")
+      match k with
+      | some k => if fmtOf hp k == fmt then "P fq ok" else s!"P fq bad {hexStr (fmtOf hp k)}"
+      | none => "P fq skip"
+    | _, _, _ => "P fq parse"
+  | _ => "P fq parse"
+
 def run : IO Unit := do
   let lines ← readLines (← IO.getStdin)
   let out ← IO.getStdout
   let mut s : St := {}
   for l in lines do
-    if l.trimAscii.toString == "end" then
+    let t := l.trimAscii.toString
+    if t == "end" then
       for r in report s do out.putStrLn r
       s := {}
+    else if t == "endcall" then
+      let (s', rs) := reportCall s
+      for r in rs do out.putStrLn r
+      s := s'
+    else if t == "reset" then
+      s := {}
+    else if t == "sk endcall" then
+      out.putStrLn ("P sk" ++ String.join (s.skAcc.map fun k => " " ++ showSk k))
+      s := { s with so := s.so.closeAll, skAcc := [] }
+    else if t.startsWith "fq " then
+      out.putStrLn (fmtQuery ((words t).drop 1))
     else
       s := feed s l
 
